@@ -314,3 +314,13 @@ func init() {
 	addMutant(Mutant{Name: "c05-map-replaced", Property: "C05", File: "ygot/struct_validation_map.go",
 		Old: "\tif dstField.Len() == 0 {\n\t\tdstField.Set(reflect.MakeMapWithSize(reflect.MapOf(m.key, m.value), srcField.Len()))\n\t}", New: "\tif dstField.Len() == 0 || fieldOverwriteEnabled(opts) {\n\t\tdstField.Set(reflect.MakeMapWithSize(reflect.MapOf(m.key, m.value), srcField.Len()))\n\t}", Expect: "copyMapField:whole-field-write"})
 }
+
+func init() {
+	// R-BINARY-LEAF (C05)
+	addMutant(Mutant{Name: "c05-binary-as-list", Property: "C05", File: "ygot/struct_validation_map.go",
+		Old: "\t\t\tif srcField.Type().Name() == BinaryTypeName {\n\t\t\t\terrs.Add(copyBinaryField(dstField, srcField, accessPath, opts...))\n\t\t\t} else {", New: "\t\t\tif srcField.Type().Name() == BinaryTypeName && fieldOverwriteEnabled(opts) {\n\t\t\t\terrs.Add(copyBinaryField(dstField, srcField, accessPath, opts...))\n\t\t\t} else {", Expect: "copySliceField#1:not-binary"})
+	addMutant(Mutant{Name: "c05-binary-no-conflict", Property: "C05", File: "ygot/struct_validation_map.go",
+		Old: "\tif !dstField.IsNil() && !fieldOverwriteEnabled(opts) && !reflect.DeepEqual(srcField.Interface(), dstField.Interface()) {", New: "\tif !dstField.IsNil() && !fieldOverwriteEnabled(opts) && srcField.Len() != dstField.Len() {", Expect: "copyBinaryField:conflict"})
+	addMutant(Mutant{Name: "c04-binary-leaf-shared", Property: "C04", File: "ygot/struct_validation_map.go",
+		Old: "\tnv := reflect.MakeSlice(srcField.Type(), srcField.Len(), srcField.Len())\n\treflect.Copy(nv, srcField)\n\tdstField.Set(nv)\n\treturn nil\n}\n\n// copySliceField", New: "\tdstField.Set(srcField)\n\treturn nil\n}\n\n// copySliceField", Expect: "copyBinaryField:Set"})
+}
